@@ -408,11 +408,16 @@ class Characteristic:
         :return: A HAP representation.
         :rtype: dict
         """
+        # Read the cache slot once: another thread may clear it between a
+        # test and a second read, and None must never be returned
         if include_value:
-            if self._to_hap_cache_with_value is not None and not self.getter_callback:
-                return self._to_hap_cache_with_value
-        elif self._to_hap_cache is not None:
-            return self._to_hap_cache
+            cached = self._to_hap_cache_with_value
+            if cached is not None and not self.getter_callback:
+                return cached
+        else:
+            cached = self._to_hap_cache
+            if cached is not None:
+                return cached
 
         properties = self._properties
         permissions = properties[PROP_PERMISSIONS]
